@@ -1,5 +1,6 @@
 import PyseqmVerif.Properties.C02
 import PyseqmVerif.Proofs.Covariance
+import Mathlib.LinearAlgebra.Matrix.Notation
 /-!
 # C02b — rotational covariance of the rotated two-centre two-electron integral block
 
@@ -57,6 +58,10 @@ theorem wRot_getD (ri : ℕ → ℝ) (F : M3 ℝ) (μ ν lam σ : Fin 4) :
   rw [List.getD_eq_getElem?_getD]
   simp only [wRot, List.getElem?_map, combos_get]
   rfl
+
+/-- the block has `10 × 10` entries, so every index `10·p(μ,ν) + p(λ,σ) ≤ 99` is in range -/
+theorem wRot_length (ri : ℕ → ℝ) (F : M3 ℝ) : (wRot ri F).length = 100 := by
+  simp only [wRot, List.length_map]; decide
 
 theorem W4_symm_left (ri : ℕ → ℝ) (F : M3 ℝ) (μ ν lam σ : Fin 4) : W4 ri F μ ν lam σ = W4 ri F ν μ lam σ := by
   simp only [W4, max_comm μ.val, min_comm μ.val]
@@ -168,7 +173,7 @@ theorem w4_covariant_nested (ri : ℕ → ℝ) (hax : ri 21 = (1/2) * (ri 18 - r
     (F F' : M3 ℝ) (hc : ColsOrthonormal F) (hc' : ColsOrthonormal F')
     (h0 : Row0Is F (v 0) (v 1) (v 2)) (h0' : Row0Is F' ((R *ᵥ v) 0) ((R *ᵥ v) 1) ((R *ᵥ v) 2)) :
     W4 ri F' = rot4 (orbRot R) (W4 ri F) := by
-  have hRR : R * Rᵀ = 1 := Matrix.mem_orthogonalGroup_iff.mp hR
+  have hRR : R * Rᵀ = 1 := (Matrix.mem_orthogonalGroup_iff (Fin 3) ℝ).mp hR
   have hv : frameV F = v := frameV_eq F v h0
   have hv' : frameV F' = rot1 R v := by rw [frameV_eq F' (R *ᵥ v) h0']; rfl
   have hD : frameD F = transverse v := by
@@ -215,7 +220,7 @@ theorem w_block_covariant (ri : ℕ → ℝ) (hax : ri 21 = (1/2) * (ri 18 - ri 
 theorem mulVec_unit (R : Matrix (Fin 3) (Fin 3) ℝ) (hR : R ∈ Matrix.orthogonalGroup (Fin 3) ℝ) (v : Fin 3 → ℝ)
     (hu : v 0 * v 0 + v 1 * v 1 + v 2 * v 2 = 1) :
     (R *ᵥ v) 0 * (R *ᵥ v) 0 + (R *ᵥ v) 1 * (R *ᵥ v) 1 + (R *ᵥ v) 2 * (R *ᵥ v) 2 = 1 := by
-  have hRR : Rᵀ * R = 1 := Matrix.mem_orthogonalGroup_iff'.mp hR
+  have hRR : Rᵀ * R = 1 := (Matrix.mem_orthogonalGroup_iff' (Fin 3) ℝ).mp hR
   have e : ∀ i j : Fin 3, R 0 i * R 0 j + R 1 i * R 1 j + R 2 i * R 2 j = if i = j then 1 else 0 := by
     intro i j
     have h := congrFun (congrFun hRR i) j
@@ -266,7 +271,7 @@ theorem coulomb_matrix_covariant (ri : ℕ → ℝ) (hax : ri 21 = (1/2) * (ri 1
     (PA : Matrix (Fin 4) (Fin 4) ℝ) :
     coulombJ (W4 ri F') (orbRot R * PA * (orbRot R)ᵀ) = orbRot R * coulombJ (W4 ri F) PA * (orbRot R)ᵀ := by
   rw [w4_covariant_nested ri hax R hR v F F' hc hc' h0 h0']
-  exact coulombJ_covariant _ (orbRot_transpose_mul R (Matrix.mem_orthogonalGroup_iff.mp hR)) _ _
+  exact coulombJ_covariant _ (orbRot_transpose_mul R ((Matrix.mem_orthogonalGroup_iff (Fin 3) ℝ).mp hR)) _ _
 
 /-- **Two-centre Coulomb energy**: for one-centre density blocks transformed covariantly
     (`P^A ↦ T P^A Tᵀ`, `P^B ↦ T P^B Tᵀ`) the contraction `Σ P^A_{μν} (μν|λσ) P^B_{λσ}` is invariant. -/
@@ -279,7 +284,7 @@ theorem two_center_coulomb_energy_invariant (ri : ℕ → ℝ) (hax : ri 21 = (1
         * (orbRot R * PB * (orbRot R)ᵀ) lam σ
       = ∑ μ, ∑ ν, ∑ lam, ∑ σ, PA μ ν * W4 ri F μ ν lam σ * PB lam σ := by
   rw [coulomb_energy_flat, coulomb_energy_flat, w4_covariant_nested ri hax R hR v F F' hc hc' h0 h0']
-  exact coulomb_energy_invariant _ (orbRot_transpose_mul R (Matrix.mem_orthogonalGroup_iff.mp hR)) _ _ _
+  exact coulomb_energy_invariant _ (orbRot_transpose_mul R ((Matrix.mem_orthogonalGroup_iff (Fin 3) ℝ).mp hR)) _ _ _
 
 /-- **Core–electron attraction**: the `(μν|ss)` column and the `(ss|λσ)` row of the block — in the code
     `e1b[ν,μ] = −tore[nj]·w_[p(μ,ν), 0]`, `e2a[σ,λ] = −tore[ni]·w_[0, p(λ,σ)]` (`ZB`, `ZA` are the core
@@ -297,13 +302,118 @@ theorem core_electron_attraction_covariant (ri : ℕ → ℝ) (hax : ri 21 = (1/
   constructor
   · ext μ ν
     rw [← rot2_eq_conj, hW]
-    simp only [Matrix.of_apply, rot4, rot2, sum_orbRot_zero, Finset.mul_sum]
+    simp only [Matrix.of_apply, rot4, rot2, sum_orbRot_zero]
+    simp only [Finset.mul_sum]
     refine Finset.sum_congr rfl fun a _ => Finset.sum_congr rfl fun b _ => ?_
     ring
   · ext lam σ
     rw [← rot2_eq_conj, hW]
-    simp only [Matrix.of_apply, rot4, rot2, sum_orbRot_zero, Finset.mul_sum]
+    simp only [Matrix.of_apply, rot4, rot2, sum_orbRot_zero]
+    simp only [Finset.mul_sum]
     refine Finset.sum_congr rfl fun a _ => Finset.sum_congr rfl fun b _ => ?_
     ring
+
+/-! ## non-vacuity and sharpness -/
+
+/-- the (3,4,5)-triangle rotation about `z` (proper) -/
+noncomputable def R345 : Matrix (Fin 3) (Fin 3) ℝ := !![3/5, -4/5, 0; 4/5, 3/5, 0; 0, 0, 1]
+
+/-- the quarter turn about `z` (proper): `x ↦ y` -/
+noncomputable def Rz90 : Matrix (Fin 3) (Fin 3) ℝ := !![0, -1, 0; 1, 0, 0; 0, 0, 1]
+
+/-- the mirror `x ↔ y` (improper, `det = −1`) -/
+noncomputable def Mxy : Matrix (Fin 3) (Fin 3) ℝ := !![0, 1, 0; 1, 0, 0; 0, 0, 1]
+
+theorem R345_orthogonal : R345 ∈ Matrix.orthogonalGroup (Fin 3) ℝ := by
+  rw [Matrix.mem_orthogonalGroup_iff]
+  ext i j
+  fin_cases i <;> fin_cases j <;> simp [R345, Matrix.mul_apply, Fin.sum_univ_three] <;> norm_num
+
+theorem Rz90_orthogonal : Rz90 ∈ Matrix.orthogonalGroup (Fin 3) ℝ := by
+  rw [Matrix.mem_orthogonalGroup_iff]
+  ext i j
+  fin_cases i <;> fin_cases j <;> simp [Rz90, Matrix.mul_apply, Fin.sum_univ_three]
+
+theorem Mxy_orthogonal : Mxy ∈ Matrix.orthogonalGroup (Fin 3) ℝ ∧ Mxy.det = -1 := by
+  constructor
+  · rw [Matrix.mem_orthogonalGroup_iff]
+    ext i j
+    fin_cases i <;> fin_cases j <;> simp [Mxy, Matrix.mul_apply, Fin.sum_univ_three]
+  · simp [Mxy, Matrix.det_fin_three]
+
+/-- concrete local-frame integrals obeying the axial identity, all 22 distinct from their neighbours -/
+noncomputable def riEx (i : ℕ) : ℝ := if i = 21 then 1 else if i = 18 then 5 else if i = 20 then 3 else (i : ℝ) + 1
+
+theorem riEx_axial : riEx 21 = (1/2) * (riEx 18 - riEx 20) := by
+  simp [riEx]; norm_num
+
+/-- non-vacuity of `w_block_covariant_code`: the bond direction `v = (3/5, 0, 4/5)`, the (3,4,5) rotation
+    (`R v = (9/25, 12/25, 4/5)`) and the float64 threshold satisfy every hypothesis -/
+example : ∀ μ ν lam σ : Fin 4,
+    (wRot riEx (rotR eps64 ((R345 *ᵥ ![3/5, 0, 4/5]) 0) ((R345 *ᵥ ![3/5, 0, 4/5]) 1)
+        ((R345 *ᵥ ![3/5, 0, 4/5]) 2))).getD (10 * pairIdx μ ν + pairIdx lam σ) 0
+      = ∑ a, ∑ b, ∑ c, ∑ d, orbRot R345 μ a * orbRot R345 ν b * orbRot R345 lam c * orbRot R345 σ d
+          * (wRot riEx (rotR eps64 ((![3/5, 0, 4/5] : Fin 3 → ℝ) 0) ((![3/5, 0, 4/5] : Fin 3 → ℝ) 1)
+              ((![3/5, 0, 4/5] : Fin 3 → ℝ) 2))).getD (10 * pairIdx a b + pairIdx c d) 0 := by
+  have h0 : (R345 *ᵥ ![3/5, 0, 4/5]) 0 = 9/25 := by
+    simp [R345, Matrix.mulVec, dotProduct, Fin.sum_univ_three]; norm_num
+  refine w_block_covariant_code riEx riEx_axial R345 R345_orthogonal eps64 (by norm_num [eps64]) _
+    (by simp; norm_num) ?_ ?_
+  · simp only [Matrix.cons_val_zero]
+    rw [abs_of_pos (by norm_num)]; norm_num [eps64]
+  · rw [h0, abs_of_pos (by norm_num)]; norm_num [eps64]
+
+/-- non-vacuity of `w_block_covariant_two_chart` with an IMPROPER `R` and the bond direction `v = −x`
+    (the centre of the F2 cone, where the code as it stands is singular) -/
+example : ∀ μ ν lam σ : Fin 4,
+    (wRot riEx (rotR2 eps64 ((Mxy *ᵥ ![-1, 0, 0]) 0) ((Mxy *ᵥ ![-1, 0, 0]) 1)
+        ((Mxy *ᵥ ![-1, 0, 0]) 2))).getD (10 * pairIdx μ ν + pairIdx lam σ) 0
+      = ∑ a, ∑ b, ∑ c, ∑ d, orbRot Mxy μ a * orbRot Mxy ν b * orbRot Mxy lam c * orbRot Mxy σ d
+          * (wRot riEx (rotR2 eps64 ((![-1, 0, 0] : Fin 3 → ℝ) 0) ((![-1, 0, 0] : Fin 3 → ℝ) 1)
+              ((![-1, 0, 0] : Fin 3 → ℝ) 2))).getD (10 * pairIdx a b + pairIdx c d) 0 :=
+  w_block_covariant_two_chart riEx riEx_axial Mxy Mxy_orthogonal.1 eps64 (by norm_num [eps64])
+    (by norm_num [eps64]) _ (by simp)
+
+/-- the frame `(x; y; z)` of the bond direction `x`, and a frame `(y; −x; z)` of the bond direction `y = Rz90 x` -/
+def Fx : M3 ℝ := ⟨1, 0, 0, 0, 1, 0, 0, 0, 1⟩
+def Fy : M3 ℝ := ⟨0, 1, 0, -1, 0, 0, 0, 0, 1⟩
+
+/-- **Covariance is not invariance**: under the quarter turn the entry `(p_x p_x|ss)` changes from `ri[2]`
+    to `ri[3]`, and its old value reappears at `(p_y p_y|ss)` as the theorem says (all hypotheses of
+    `w4_covariant` hold for this data). -/
+theorem w_block_not_invariant :
+    ColsOrthonormal Fx ∧ ColsOrthonormal Fy ∧
+    Row0Is Fx ((![1, 0, 0] : Fin 3 → ℝ) 0) ((![1, 0, 0] : Fin 3 → ℝ) 1) ((![1, 0, 0] : Fin 3 → ℝ) 2) ∧
+    Row0Is Fy ((Rz90 *ᵥ ![1, 0, 0]) 0) ((Rz90 *ᵥ ![1, 0, 0]) 1) ((Rz90 *ᵥ ![1, 0, 0]) 2) ∧
+    W4 riEx Fy 1 1 0 0 ≠ W4 riEx Fx 1 1 0 0 ∧ W4 riEx Fy 2 2 0 0 = W4 riEx Fx 1 1 0 0 := by
+  refine ⟨?_, ?_, ?_, ?_, ?_, ?_⟩
+  · simp [ColsOrthonormal, Fx]
+  · simp [ColsOrthonormal, Fy]
+  · simp [Row0Is, Fx]
+  · simp [Row0Is, Fy, Rz90, Matrix.mulVec, dotProduct, Fin.sum_univ_three]
+  · simp [W4, wElem, M3.row, M3.get, Fx, Fy, riEx]
+  · simp [W4, wElem, M3.row, M3.get, Fx, Fy, riEx]
+
+/-- a second frame of the bond direction `x`: transverse axes turned by the (3,4,5) angle about the bond -/
+noncomputable def Fx' : M3 ℝ := ⟨1, 0, 0, 0, 3/5, 4/5, 0, -4/5, 3/5⟩
+
+/-- **The axial identity `ri[21] = ½ (ri[18] − ri[20])` cannot be dropped**: with `ri[18] = 1`,
+    `ri[20] = ri[21] = 0` and `R = 1` every other hypothesis of `w4_covariant` holds for the two frames
+    `Fx`, `Fx'` of the same bond direction, but the conclusion fails at `(p_y p_y|p_y p_y)`. -/
+theorem w_block_covariant_needs_axial_identity :
+    ∃ (ri : ℕ → ℝ) (R : Matrix (Fin 3) (Fin 3) ℝ) (v : Fin 3 → ℝ) (F F' : M3 ℝ),
+      R ∈ Matrix.orthogonalGroup (Fin 3) ℝ ∧ ColsOrthonormal F ∧ ColsOrthonormal F' ∧
+      Row0Is F (v 0) (v 1) (v 2) ∧ Row0Is F' ((R *ᵥ v) 0) ((R *ᵥ v) 1) ((R *ᵥ v) 2) ∧
+      W4 ri F' 2 2 2 2 ≠ ∑ a, ∑ b, ∑ c, ∑ d,
+        orbRot R 2 a * orbRot R 2 b * orbRot R 2 c * orbRot R 2 d * W4 ri F a b c d := by
+  refine ⟨fun i => if i = 18 then 1 else 0, 1, ![1, 0, 0], Fx, Fx', ?_, ?_, ?_, ?_, ?_, ?_⟩
+  · rw [Matrix.mem_orthogonalGroup_iff]; simp
+  · simp [ColsOrthonormal, Fx]
+  · simp [ColsOrthonormal, Fx']; norm_num
+  · simp [Row0Is, Fx]
+  · simp [Row0Is, Fx']
+  · rw [← rot4_flat, orbRot_one, rot4_one]
+    simp [W4, wElem, M3.row, M3.get, Fx, Fx']
+    norm_num
 
 end C02b
